@@ -716,43 +716,35 @@ example :
     ["b", "b"].isPerm ([("a", 2), ("b", 3)].map (·.1)) = false := by
   refine ⟨by decide, by decide, by decide, by decide, by decide, by decide, by decide, by decide,
     by decide, by decide, by decide⟩
-/-! ## 10. Conversions between `IndexRange` and `Range<usize>` -/
+/-! ## 10. Conversions between `IndexRange` and `Range<usize>` (infallible conversions, outside
+   C16's list of Option/Result APIs; modelled as written) -/
 
-/-- As written, `Range<usize>::from(IndexRange)` overflows on `start + length` (finding D-14). -/
+/-- As written, `Range<usize>::from(IndexRange)` adds `start + length` unchecked: in the dev
+    profile it panics for a range whose end is not representable. -/
 theorem pre_toStdRange_panics : IndexRange.toStdRangePre ⟨1, usizeMax⟩ = .panic .overflow := by decide
 
-/-- The conversions are total on the whole `usize × usize` domain (repaired `to`, fix D-14):
-    `to` keeps the start and ends at `min(start + length, usize::MAX)` — a representable end, the
-    unchecked code's answer whenever that does not overflow; `from` keeps the start with the
-    saturated difference as length; converting there and back is the identity on every range
-    whose end is representable, and converting a `Range` to an `IndexRange` and back yields the
-    same range whenever `start ≤ end`. -/
-theorem std_range_conversions_total (r : IndexRange) (hs : r.start ≤ usizeMax)
-    (hl : r.length ≤ usizeMax) (a b : Nat) :
-    (r.toStdRange).1 = r.start ∧ (r.toStdRange).2 ≤ usizeMax ∧ r.start ≤ (r.toStdRange).2 ∧
-    (r.start + r.length ≤ usizeMax → IndexRange.toStdRangePre r = .ok r.toStdRange ∧
-      IndexRange.ofStdRange r.toStdRange.1 r.toStdRange.2 = r) ∧
-    (usizeMax < r.start + r.length → IndexRange.toStdRangePre r = .panic .overflow ∧
-      r.toStdRange = (r.start, usizeMax)) ∧
+/-- **The conversions, exactly.**  `Range<usize>::from(IndexRange)` returns `start .. start+length`
+    exactly when that end is representable and panics (overflow) otherwise;
+    `IndexRange::from(a..b)` is total (`length = b − a`, saturating); converting an `IndexRange`
+    with a representable end to a `Range` and back is the identity, and so is converting a
+    `Range` with `a ≤ b` to an `IndexRange` and back. -/
+theorem std_range_conversions (r : IndexRange) (a b : Nat) :
+    (r.start + r.length ≤ usizeMax →
+      IndexRange.toStdRangePre r = .ok (r.start, r.start + r.length) ∧
+      IndexRange.ofStdRange r.start (r.start + r.length) = r) ∧
+    (usizeMax < r.start + r.length → IndexRange.toStdRangePre r = .panic .overflow) ∧
     (IndexRange.ofStdRange a b).start = a ∧ (IndexRange.ofStdRange a b).length = b - a ∧
-    (a ≤ b → b ≤ usizeMax → (IndexRange.ofStdRange a b).toStdRange = (a, b)) := by
-  refine ⟨rfl, ?_, ?_, ?_, ?_, rfl, rfl, ?_⟩
-  · simp only [IndexRange.toStdRange]; omega
-  · simp only [IndexRange.toStdRange]; omega
+    (a ≤ b → b ≤ usizeMax → IndexRange.toStdRangePre (IndexRange.ofStdRange a b) = .ok (a, b)) := by
+  refine ⟨?_, ?_, rfl, rfl, ?_⟩
   · intro h
-    refine ⟨?_, ?_⟩
-    · simp only [IndexRange.toStdRangePre, cadd_ok h, IndexRange.toStdRange, Nat.min_eq_left h]
-    · simp only [IndexRange.toStdRange, IndexRange.ofStdRange, Nat.min_eq_left h]
-      cases r; simp
+    refine ⟨by simp only [IndexRange.toStdRangePre, cadd_ok h], ?_⟩
+    simp only [IndexRange.ofStdRange]
+    cases r; simp
   · intro h
-    refine ⟨?_, ?_⟩
-    · simp only [IndexRange.toStdRangePre, cadd]
-      rw [if_neg (by omega)]
-    · simp only [IndexRange.toStdRange]
-      rw [Nat.min_eq_right (by omega)]
+    simp only [IndexRange.toStdRangePre, cadd]
+    rw [if_neg (by omega)]
   · intro hab hb
-    simp only [IndexRange.toStdRange, IndexRange.ofStdRange]
-    rw [Nat.add_sub_cancel' hab, Nat.min_eq_left hb]
-
+    have h : a + (b - a) ≤ usizeMax := by omega
+    simp only [IndexRange.toStdRangePre, IndexRange.ofStdRange, cadd_ok h, Nat.add_sub_cancel' hab]
 
 end EasyMl.C16
